@@ -1,0 +1,33 @@
+//go:build verif
+
+// Contracts for deductive verification (read by /verif/govc). Comment-only: this file adds no code.
+package sao
+
+// InitGenesis imports the two schedules; with pairwise distinct heights every listed entry is stored as listed
+//@ func InitGenesis(ctx, k, genState)
+//@   modifies *
+//@   nopanic [C02.genesis.sao.nopanic]
+//@   ensures [C18.init.sao.timeoutorder] (forall a int, b int :: 0 <= a && a < b && b < len(genState.TimeoutOrderList) ==> genState.TimeoutOrderList[a].Height != genState.TimeoutOrderList[b].Height) ==>
+//@       forall j int :: 0 <= j && j < len(genState.TimeoutOrderList) ==> has(TimeoutOrder, genState.TimeoutOrderList[j].Height) && TimeoutOrder[genState.TimeoutOrderList[j].Height] == genState.TimeoutOrderList[j]
+//@   ensures [C18.init.sao.expiredshard] (forall a int, b int :: 0 <= a && a < b && b < len(genState.ExpiredShardList) ==> genState.ExpiredShardList[a].Height != genState.ExpiredShardList[b].Height) ==>
+//@       forall j int :: 0 <= j && j < len(genState.ExpiredShardList) ==> has(ExpiredShard, genState.ExpiredShardList[j].Height) && ExpiredShard[genState.ExpiredShardList[j].Height] == genState.ExpiredShardList[j]
+//@   loop L1 invariant -1 <= rangeindex && rangeindex < len(genState0.TimeoutOrderList)
+//@   loop L1 invariant (forall a int, b int :: 0 <= a && a < b && b < len(genState0.TimeoutOrderList) ==> genState0.TimeoutOrderList[a].Height != genState0.TimeoutOrderList[b].Height) ==>
+//@       forall j int :: 0 <= j && j <= rangeindex ==> has(TimeoutOrder, genState0.TimeoutOrderList[j].Height) && TimeoutOrder[genState0.TimeoutOrderList[j].Height] == genState0.TimeoutOrderList[j]
+//@   loop L1 decreases [C02.genesis.term] len(genState0.TimeoutOrderList) - rangeindex
+//@   loop L2 invariant -1 <= rangeindex && rangeindex < len(genState0.ExpiredShardList)
+//@   loop L2 invariant (forall a int, b int :: 0 <= a && a < b && b < len(genState0.ExpiredShardList) ==> genState0.ExpiredShardList[a].Height != genState0.ExpiredShardList[b].Height) ==>
+//@       forall j int :: 0 <= j && j <= rangeindex ==> has(ExpiredShard, genState0.ExpiredShardList[j].Height) && ExpiredShard[genState0.ExpiredShardList[j].Height] == genState0.ExpiredShardList[j]
+//@   loop L2 decreases [C02.genesis.term] len(genState0.ExpiredShardList) - rangeindex
+//@   loop L2 invariant forall c int :: 0 <= c && c <= MaxUint64 ==> TimeoutOrder[c] == entry(TimeoutOrder[c]) && (has(TimeoutOrder, c) <==> entry(has(TimeoutOrder, c)))
+
+// ExportGenesis lists every schedule entry exactly as stored
+//@ func ExportGenesis(ctx, k) (genesis)
+//@   modifies nothing
+//@   ensures [C18.export.sao.nonnil] genesis != nil
+//@   ensures [C18.export.sao.timeoutorder] (forall c int :: 0 <= c && c <= MaxUint64 && has(TimeoutOrder, c) ==> contains(genesis.TimeoutOrderList, TimeoutOrder[c]))
+//@       && (forall j int :: 0 <= j && j < len(genesis.TimeoutOrderList) ==> has(TimeoutOrder, genesis.TimeoutOrderList[j].Height) && TimeoutOrder[genesis.TimeoutOrderList[j].Height] == genesis.TimeoutOrderList[j])
+//@       && (forall a int, b int :: 0 <= a && a < b && b < len(genesis.TimeoutOrderList) ==> genesis.TimeoutOrderList[a].Height != genesis.TimeoutOrderList[b].Height)
+//@   ensures [C18.export.sao.expiredshard] (forall c int :: 0 <= c && c <= MaxUint64 && has(ExpiredShard, c) ==> contains(genesis.ExpiredShardList, ExpiredShard[c]))
+//@       && (forall j int :: 0 <= j && j < len(genesis.ExpiredShardList) ==> has(ExpiredShard, genesis.ExpiredShardList[j].Height) && ExpiredShard[genesis.ExpiredShardList[j].Height] == genesis.ExpiredShardList[j])
+//@       && (forall a int, b int :: 0 <= a && a < b && b < len(genesis.ExpiredShardList) ==> genesis.ExpiredShardList[a].Height != genesis.ExpiredShardList[b].Height)
